@@ -28,14 +28,15 @@ type c05world struct {
 }
 
 type c05res struct {
-	id       string
-	resNo    int
-	ver      int
-	noStore  bool
-	gate     chan struct{} // closed = open
-	arrived  chan struct{} // first request reached the origin
-	arrOnce  sync.Once
-	requests int
+	id          string
+	resNo       int
+	ver         int
+	noStore     bool
+	pastExpires bool
+	gate        chan struct{} // closed = open
+	arrived     chan struct{} // first request reached the origin
+	arrOnce     sync.Once
+	requests    int
 }
 
 func (w *c05world) enterCount(key string) int {
@@ -75,7 +76,11 @@ func (w *c05world) handler(rw http.ResponseWriter, q *http.Request, rec *rig.Ori
 	if noStore {
 		cc = "no-store"
 	}
-	rig.ServeBody(rw, res.resNo, ver, 20000, map[string]string{"Cache-Control": cc})
+	hd := map[string]string{"Cache-Control": cc}
+	if res.pastExpires {
+		hd = map[string]string{"Expires": "Thu, 01 Jan 1998 00:00:00 GMT"}
+	}
+	rig.ServeBody(rw, res.resNo, ver, 20000, hd)
 }
 
 func waitFor(cond func() bool, d time.Duration) bool {
@@ -100,6 +105,10 @@ type c05burst struct {
 	Backend string `json:"backend"`
 	Late    bool   `json:"late_joiner_after_hangup"`
 	Tiny    bool   `json:"cache_limit_below_body_size"`
+	// ZeroLife: the stored entry has no freshness lifetime left the moment it is stored:
+	// "default-1ns" = force_default_max_age with default_max_age 1 ns; "past-expires" = ignore_cache_control (every
+	// 200 GET is stored) with an origin Expires in the past
+	ZeroLife string `json:"zero_lifetime,omitempty"`
 }
 
 func c05one(r *core.Recorder, w *c05world, p *rig.ProxyRig, o *rig.Origin, mode rig.Mode, bu c05burst, resNo int) {
@@ -108,7 +117,15 @@ func c05one(r *core.Recorder, w *c05world, p *rig.ProxyRig, o *rig.Origin, mode 
 		p = rig.StartProxy(rig.ProxyOpts{Backend: bu.Backend, Max: 8000})
 		defer p.Close()
 	}
-	res := &c05res{id: bu.ID, resNo: resNo, ver: 1, noStore: bu.Outcome == "uncacheable", gate: make(chan struct{}), arrived: make(chan struct{})}
+	switch bu.ZeroLife {
+	case "default-1ns":
+		p = rig.StartProxy(rig.ProxyOpts{Backend: bu.Backend, ForceDefault: true, DefaultMaxAge: time.Nanosecond})
+		defer p.Close()
+	case "past-expires":
+		p = rig.StartProxy(rig.ProxyOpts{Backend: bu.Backend, IgnoreCC: true})
+		defer p.Close()
+	}
+	res := &c05res{id: bu.ID, resNo: resNo, ver: 1, noStore: bu.Outcome == "uncacheable", pastExpires: bu.ZeroLife == "past-expires", gate: make(chan struct{}), arrived: make(chan struct{})}
 	w.mu.Lock()
 	w.res[bu.ID] = res
 	w.mu.Unlock()
@@ -208,7 +225,7 @@ func c05one(r *core.Recorder, w *c05world, p *rig.ProxyRig, o *rig.Origin, mode 
 	}
 	r.Count("bursts_with_confirmed_overlap", 1)
 	r.Count("coalesced_requests_observed", int64(bu.N))
-	r.Nontrivial(bu.N, bu.State, bu.Outcome, bu.Perturb, bu.Who, bu.Mode, bu.Backend)
+	r.Nontrivial(bu.N, bu.State, bu.Outcome, bu.Perturb, bu.Who, bu.Mode, bu.Backend, bu.ZeroLife)
 
 	var mine []rig.OriginReq
 	for _, g := range o.Since(seqBefore) {
@@ -375,6 +392,12 @@ func c05Run(b core.Batch, r *core.Recorder) {
 	// the same with a cache whose size limit is below the body size (the object cannot stay cached for long)
 	for _, n := range []int{2, 6} {
 		emit(c05burst{N: n, State: "cold", Outcome: "cacheable", Perturb: "none", Tiny: true})
+	}
+	// stored, but with no freshness lifetime left: still one fetch (one revalidation) for the whole burst
+	for _, zl := range []string{"default-1ns", "past-expires"} {
+		for _, st := range []string{"cold", "stale-304"} {
+			emit(c05burst{N: ns[i%len(ns)], State: st, Outcome: "cacheable", Perturb: "none", ZeroLife: zl})
+		}
 	}
 	for k := 0; k < b.Int("random", 10); k++ {
 		n := ns[rng.IntN(len(ns))]
